@@ -4,11 +4,14 @@ Spellings the lexer reads back, continued: `not` and the two-word operator `not 
 -/
 namespace ExprModel.Lex
 
-/-- when `acceptWord` succeeds, the word is followed by a blank or the end of input -/
-theorem acceptWord_true_follow (word : List Char) (s : LState) (rest : List Char) (s' : LState) (r' : List Char)
-    (h : acceptWord word s rest = (true, s', r')) : r'.head? = none ∨ r'.head? = some ' ' := by
+/-- what may follow the word of `acceptWord`: the end of input or a rune of `cc.wordEnd` -/
+def WordEnd (cc : CharClass) (rest : List Char) : Prop := ∀ c, rest.head? = some c → cc.wordEnd c = true
+
+/-- when `acceptWord` succeeds, the word is followed by a `wordEnd` rune or the end of input -/
+theorem acceptWord_true_follow (cc : CharClass) (word : List Char) (s : LState) (rest : List Char) (s' : LState)
+    (r' : List Char) (h : acceptWord cc word s rest = (true, s', r')) : WordEnd cc r' := by
   unfold acceptWord at h
-  generalize skipSpaces s rest = a1 at h
+  generalize skipSpaces cc s rest = a1 at h
   obtain ⟨s1, r1⟩ := a1
   simp only at h
   cases hmw : matchWord word s1 r1 with
@@ -27,21 +30,21 @@ theorem acceptWord_true_follow (word : List Char) (s : LState) (rest : List Char
     | none =>
       simp only at h
       cases h
-      exact Or.inl hp1.symm
+      intro c hc
+      rw [← hp1] at hc; cases hc
     | some c =>
       simp only at h
       split at h
-      · cases h
       · next hc =>
         cases h
-        have : c = ' ' := by simpa using hc
-        subst this
-        exact Or.inr hp1.symm
+        intro c' hc'
+        rw [← hp1] at hc'; cases hc'; exact hc
+      · cases h
 
-/-- what must not follow `not`: blanks, `in`, and then a blank or the end of input -/
+/-- what must not follow `not`: runes `acceptWord` skips, `in`, and then a `wordEnd` rune or the end of input -/
 def NotFollow (cc : CharClass) (rest : List Char) : Prop :=
   (∀ x, rest.head? = some x → cc.isAlphaNumeric x = false) ∧
-  ¬ ∃ mid r', (∀ c ∈ mid, c = ' ') ∧ rest = mid ++ "in".toList ++ r' ∧ (r'.head? = none ∨ r'.head? = some ' ')
+  ¬ ∃ mid r', (∀ c ∈ mid, cc.wordBlank c = true) ∧ rest = mid ++ "in".toList ++ r' ∧ WordEnd cc r'
 
 theorem idStart_n {cc : CharClass} (hcc : cc.AsciiExact) : IdStart cc 'n' :=
   idStart_ascii hcc (Or.inl (by decide))
@@ -53,7 +56,7 @@ theorem alnum_letter {cc : CharClass} (hcc : cc.AsciiExact) {c : Char} (h : Char
 theorem root_not {cc : CharClass} (hcc : cc.AsciiExact) (s : LState) (L : Loc) (rest : List Char)
     (hf : Fresh s L ("not".toList ++ rest)) (hok : ∀ x, rest.head? = some x → cc.isAlphaNumeric x = false) :
     ∃ s1, Good L "not".toList s1 rest ∧
-      root cc LexTables.std s ("not".toList ++ rest) = notState LexTables.std s1 rest := by
+      root cc LexTables.std s ("not".toList ++ rest) = notState cc LexTables.std s1 rest := by
   have hnot : "not".toList = ['n', 'o', 't'] := by decide
   rw [hnot] at hf ⊢
   rw [List.cons_append, root_ident (idStart_n hcc)]
@@ -87,23 +90,24 @@ theorem spells_not {cc : CharClass} (hcc : cc.AsciiExact) :
   obtain ⟨s1, g1, hr⟩ := root_not hcc s L rest hf hok.1
   rw [hr]
   unfold notState
-  obtain ⟨ht, hfl⟩ := acceptWord_spec LexTables.std.inWord.toList g1
-  cases hacc : acceptWord LexTables.std.inWord.toList s1 rest with
+  obtain ⟨ht, hfl⟩ := acceptWord_spec cc LexTables.std.inWord.toList g1
+  cases hacc : acceptWord cc LexTables.std.inWord.toList s1 rest with
   | mk b o =>
     obtain ⟨s2, r2⟩ := o
     cases b with
     | true =>
       exfalso
       obtain ⟨mid, hm, e, _⟩ := ht s2 r2 hacc
-      exact hok.2 ⟨mid, r2, hm, e, acceptWord_true_follow _ _ _ _ _ hacc⟩
+      exact hok.2 ⟨mid, r2, hm, e, acceptWord_true_follow _ _ _ _ _ _ hacc⟩
     | false =>
       obtain ⟨e, _⟩ := hfl s2 r2 hacc
       subst e
       exact ⟨_, _, rfl, rfl, (by decide : String.ofList "not".toList = "not")⟩
 
-/-- the space-skipping loop stops at the first rune that is not U+0020 -/
-theorem skipSpaces_run : ∀ (mid : List Char), (∀ c ∈ mid, c = ' ') → ∀ (tl : List Char),
-    (∀ x, tl.head? = some x → x ≠ ' ') → ∀ (s : LState), (skipSpaces s (mid ++ tl)).2 = tl
+/-- the space-skipping loop stops at the first rune that `acceptWord` does not skip -/
+theorem skipSpaces_run (cc : CharClass) : ∀ (mid : List Char), (∀ c ∈ mid, cc.wordBlank c = true) →
+    ∀ (tl : List Char), (∀ x, tl.head? = some x → cc.wordBlank x = false) → ∀ (s : LState),
+    (skipSpaces cc s (mid ++ tl)).2 = tl
   | [], _, tl, htl, s => by
     cases tl with
     | nil => simp [skipSpaces, peek_nil]
@@ -111,23 +115,35 @@ theorem skipSpaces_run : ∀ (mid : List Char), (∀ c ∈ mid, c = ' ') → ∀
       have := htl x rfl
       simp [skipSpaces, this, peek_cons]
   | c :: mid, hm, tl, htl, s => by
-    have hc : c = ' ' := hm c (by simp)
-    subst hc
-    simp only [List.cons_append, skipSpaces, if_true]
-    exact skipSpaces_run mid (fun x hx => hm x (by simp [hx])) tl htl _
+    have hc : cc.wordBlank c = true := hm c (by simp)
+    simp only [List.cons_append, skipSpaces, hc, if_true]
+    exact skipSpaces_run cc mid (fun x hx => hm x (by simp [hx])) tl htl _
 
-/-- **`not in`**: `not`, one or more U+0020, `in`, and then a U+0020 or the end of input -/
+theorem wordBlank_i {cc : CharClass} (hcc : cc.AsciiExact) : cc.wordBlank 'i' = false := by
+  unfold CharClass.wordBlank
+  split
+  · rw [hcc.space _ (by decide)]; decide
+  · decide
+
+theorem alnum_space {cc : CharClass} (hcc : cc.AsciiExact) : cc.isAlphaNumeric ' ' = false := by
+  unfold CharClass.isAlphaNumeric CharClass.isAlphabetic
+  rw [hcc.letter _ (by decide), hcc.digit _ (by decide)]; decide
+
+theorem wordBlank_space {cc : CharClass} (hcc : cc.AsciiExact) : cc.wordBlank ' ' = true := by
+  unfold CharClass.wordBlank
+  split
+  · rw [hcc.space _ (by decide)]; decide
+  · decide
+
+/-- **`not in`**: `not`, one or more runes that `acceptWord` skips (none alphanumeric), `in`, and then a
+`wordEnd` rune or the end of input -/
 theorem spells_notin {cc : CharClass} (hcc : cc.AsciiExact) (mid : List Char) (hne : mid ≠ [])
-    (hm : ∀ c ∈ mid, c = ' ') :
-    Spells cc .operator "not in" ("not".toList ++ (mid ++ "in".toList))
-      (fun rest => rest.head? = none ∨ rest.head? = some ' ') := by
+    (hm : ∀ c ∈ mid, cc.wordBlank c = true) (hmw : ∀ c ∈ mid, cc.isAlphaNumeric c = false) :
+    Spells cc .operator "not in" ("not".toList ++ (mid ++ "in".toList)) (WordEnd cc) := by
   have hne0 : "not".toList ++ (mid ++ "in".toList) ≠ [] := by
     have : "not".toList ≠ [] := by decide
     intro h; exact this (List.append_eq_nil_iff.mp h).1
   refine spells_of_root hne0 fun s L rest hf hok => ?_
-  have hsp : cc.isAlphaNumeric ' ' = false := by
-    unfold CharClass.isAlphaNumeric CharClass.isAlphabetic
-    rw [hcc.letter _ (by decide), hcc.digit _ (by decide)]; decide
   have hhead : ∀ x, (mid ++ "in".toList ++ rest).head? = some x → cc.isAlphaNumeric x = false := by
     intro x hx
     cases mid with
@@ -135,7 +151,7 @@ theorem spells_notin {cc : CharClass} (hcc : cc.AsciiExact) (mid : List Char) (h
     | cons c cs =>
       simp only [List.cons_append, List.head?_cons, Option.some.injEq] at hx
       subst hx
-      rw [hm c (by simp)]; exact hsp
+      exact hmw c (by simp)
   have hf' : Fresh s L ("not".toList ++ (mid ++ "in".toList ++ rest)) := by simpa [List.append_assoc] using hf
   obtain ⟨s1, g1, hr⟩ := root_not hcc s L (mid ++ "in".toList ++ rest) hf' hhead
   have hrw : "not".toList ++ (mid ++ "in".toList) ++ rest = "not".toList ++ (mid ++ "in".toList ++ rest) := by
@@ -143,13 +159,14 @@ theorem spells_notin {cc : CharClass} (hcc : cc.AsciiExact) (mid : List Char) (h
   rw [hrw, hr]
   -- `acceptWord` succeeds and stops right after `in`
   have hin : "in".toList = ['i', 'n'] := by decide
-  have hacc : ∃ s', acceptWord LexTables.std.inWord.toList s1 (mid ++ "in".toList ++ rest) = (true, s', rest) := by
+  have hacc : ∃ s', acceptWord cc LexTables.std.inWord.toList s1 (mid ++ "in".toList ++ rest) = (true, s', rest) := by
     have hiw : LexTables.std.inWord.toList = ['i', 'n'] := by decide
     rw [hiw, hin]
     unfold acceptWord
-    have hskip := skipSpaces_run mid hm ('i' :: 'n' :: rest) (by intro x hx; simp at hx; subst hx; decide) s1
+    have hskip := skipSpaces_run cc mid hm ('i' :: 'n' :: rest)
+      (by intro x hx; simp at hx; subst hx; exact wordBlank_i hcc) s1
     simp only [List.append_assoc, List.cons_append, List.nil_append] at hskip ⊢
-    generalize skipSpaces s1 (mid ++ 'i' :: 'n' :: rest) = a at hskip
+    generalize skipSpaces cc s1 (mid ++ 'i' :: 'n' :: rest) = a at hskip
     obtain ⟨sa, ra⟩ := a
     simp only at hskip ⊢
     subst hskip
@@ -164,12 +181,9 @@ theorem spells_notin {cc : CharClass} (hcc : cc.AsciiExact) (mid : List Char) (h
     | none => exact ⟨_, rfl⟩
     | some c =>
       simp only
-      rcases hok with h | h
-      · rw [h] at hp1; cases hp1
-      · rw [h] at hp1
-        have : c = ' ' := Option.some.inj hp1
-        subst this
-        simp
+      have : cc.wordEnd c = true := hok c hp1.symm
+      rw [if_pos this]
+      exact ⟨_, rfl⟩
   obtain ⟨s', hs'⟩ := hacc
   unfold notState
   rw [hs']
